@@ -258,6 +258,7 @@ func c06MergeAlphabet() []refcfg.Ext {
 		{Kind: refcfg.KSAN, Critical: &t, Raw: refcfg.Bin([]byte{0x30, 0x03, 0x82, 0x01, 0x78})},
 		{Kind: refcfg.KEKU, EKU: refcfg.Strs("clientAuth")},
 		{Kind: refcfg.KCustom, CustomOID: "2.5.29.17", Critical: &t, Raw: refcfg.Bin([]byte{4, 5, 6})}, // custom extension with the SAN OID
+		{Kind: refcfg.KCustom, CustomOID: "2.5.29.17", Critical: &t, Raw: refcfg.Bin([]byte{7, 8, 9})}, // the same with another value of the same length
 	}
 }
 
